@@ -3,6 +3,7 @@ package main
 import (
 	"encoding/json"
 	"fmt"
+	"sort"
 	"strings"
 
 	jwt "github.com/nats-io/jwt/v2"
@@ -15,10 +16,10 @@ func init() { runners["C08"] = runner{run: runC08, replay: replayC08} }
 type c08Case struct {
 	Entity     string   `json:"entity"` // operator | account
 	Strict     bool     `json:"strict"`
-	Keys       []string `json:"keys"`        // plain signing keys
-	ScopedKeys []string `json:"scoped_keys"` // account only
+	Keys       []string `json:"keys"`                      // plain signing keys
+	ScopedKeys []string `json:"scoped_keys"`               // account only
 	ByValue    bool     `json:"scopes_by_value,omitempty"` // scoped signers registered as UserScope values, not pointers
-	RoundTrip  bool     `json:"round_trip"`  // entity encoded and decoded first
+	RoundTrip  bool     `json:"round_trip"`                // entity encoded and decoded first
 	Nil        bool     `json:"nil"`
 	Kind       string   `json:"kind"`
 	Issuer     string   `json:"issuer"`
@@ -164,7 +165,7 @@ func evalC08(c *Ctx, k c08Case) {
 }
 
 func runC08(c *Ctx) {
-	c.Res.Rule = "complete cross product: entity {operator, account} x signing-key set {empty, listed, listed+identity} (account: plain and scoped, scopes registered by pointer and by value) x strict flag x claim {nil, 7 kinds} x issuer {identity, listed plain key, listed scoped key, unlisted key of same role, key of another entity} x subject {self, other} x issuer-account {empty, this, other} x before/after encode-decode of the entity; oracle = the property's sentence; every case also goes through the Lean model. non-trivial = distinct cases."
+	c.Res.Rule = "complete cross product: entity {operator, account} x signing-key set {empty, listed, listed+identity} (account: plain and scoped, scopes registered by pointer and by value) x strict flag x claim {nil, 7 kinds} x issuer {identity, listed plain key, listed scoped key, unlisted key of same role, key of another entity} x subject {self, other} x issuer-account {empty, this, other} x before/after encode-decode of the entity; oracle = the property's sentence; every case also goes through the Lean model; plus long signing-key lists (24 operator keys sorted / two neighbours swapped / reversed / random, 20 account keys), every listed key and an unlisted one asked about. non-trivial = distinct cases."
 	okp, akp := kpN('O', 0), kpN('A', 0)
 	o, a := pubOf(okp), pubOf(akp)
 	osk, osk2 := pubOf(kpN('O', 1)), pubOf(kpN('O', 2))
@@ -205,6 +206,50 @@ func runC08(c *Ctx) {
 					}
 				}
 			}
+		}
+	}
+	// long signing-key lists (a list scan must not depend on the list being short, sorted or unsorted): sorted,
+	// sorted with two neighbours swapped, reversed, random; every listed key and an unlisted one are asked about
+	{
+		var ks []string
+		for i := 0; i < 24; i++ {
+			ks = append(ks, pubOf(kpN('O', 40+i)))
+		}
+		sort.Strings(ks)
+		variants := map[string][]string{"sorted": append([]string{}, ks...)}
+		sw := append([]string{}, ks...)
+		sw[1], sw[2] = sw[2], sw[1]
+		sw[13], sw[14] = sw[14], sw[13]
+		variants["neighbours-swapped"] = sw
+		rev := append([]string{}, ks...)
+		for i, j := 0, len(rev)-1; i < j; i, j = i+1, j-1 {
+			rev[i], rev[j] = rev[j], rev[i]
+		}
+		variants["reversed"] = rev
+		rnd := append([]string{}, ks...)
+		for i := range rnd {
+			j := i + c.R.Intn(len(rnd)-i)
+			rnd[i], rnd[j] = rnd[j], rnd[i]
+		}
+		variants["random"] = rnd
+		for _, name := range []string{"sorted", "neighbours-swapped", "reversed", "random"} {
+			list := variants[name]
+			for _, rt := range []bool{false, true} {
+				for _, iss := range append(append([]string{}, list...), pubOf(kpN('O', 99))) {
+					evalC08(c, c08Case{Entity: "operator", Keys: list, RoundTrip: rt, Kind: "account", Issuer: iss, Subject: a})
+					n++
+				}
+			}
+			c.Count("long-key-list:" + name)
+		}
+		// the account side: long plain-key lists
+		var aks []string
+		for i := 0; i < 20; i++ {
+			aks = append(aks, pubOf(kpN('A', 40+i)))
+		}
+		for _, iss := range append(append([]string{}, aks...), pubOf(kpN('A', 99))) {
+			evalC08(c, c08Case{Entity: "account", Keys: aks, Kind: "user", Issuer: iss, Subject: pubOf(kpN('U', 0)), IssuerAcct: a})
+			n++
 		}
 	}
 	c.Res.Exhaustive = true
